@@ -181,7 +181,7 @@ def check_dominance(fg, cg, inv, res, mpc_o, val_o, pub_o):
             if cont_edge is None or not bb.edge_dominates(cont_edge[0], cont_edge[1], bi):
                 bad += 1
                 res.bad("R10.dom", "_mpc|%s" % o.rsplit("::", 1)[-1], "call to %s is not dominated by a successful validate(ctx)?" % o, where(bb, bi))
-    res.floor("engine_calls_in__mpc", n_calls, 7)
+    res.floor("engine_calls_in__mpc", n_calls, 4)
     if not bad and cont_edge is not None:
         res.ok("R10.dom", "_mpc|order", where(b, vblock), "%d engine calls, all dominated by the Continue edge of validate(ctx)?" % n_calls)
     # public entry: only Context::new + _mpc
